@@ -304,7 +304,26 @@ public:
         return _weight;
     }
 
+#ifdef PARMCB_VERIF
+    // read-only observation points for the verification harness
+    const Graph& verif_spanner() const {
+        return _spanner;
+    }
+    const std::map<Edge, Edge>& verif_edge_spanner_to_g() const {
+        return _edge_spanner_to_g;
+    }
+    const std::vector<Edge>& verif_non_spanner_edges() const {
+        return _non_spanner_edges;
+    }
+    const std::vector<Edge>& verif_scan_order() const {
+        return _verif_scan_order;
+    }
+#endif
+
 private:
+#ifdef PARMCB_VERIF
+    std::vector<Edge> _verif_scan_order;
+#endif
     // graph
     const Graph &_g;
     const WeightMap &_weight_map;
@@ -337,6 +356,9 @@ private:
                 [&](const Edge &e1, const Edge &e2) {
                     return _weight_map[e1] < _weight_map[e2];
                 });
+#ifdef PARMCB_VERIF
+        _verif_scan_order = sorted_edges;
+#endif
 
         // create vertex set of spanner
         VertexIt vi, vi_end;
